@@ -52,7 +52,7 @@ def entries_uses(facts, field="entries", adt=TA):
 def field_stores(facts, field, adt=TA):
     """Every store to `field` of `adt` (assignments and aggregate constructions)."""
     out = []
-    for b in facts.bodies.values():
+    for b in facts.views():
         for bi, si, s in b.stmts():
             if s["k"] != "assign":
                 continue
@@ -69,6 +69,43 @@ def field_stores(facts, field, adt=TA):
                     op = rv["fields"][names.index(field)]
                     out.append((b, bi, s, "construct", b.term_of_operand(op)))
     return out
+
+
+def built_map(facts, b, v):
+    """Where does the map stored into `entries` at construction come from?  ('ok' | 'bad' | 'skip' | '?', why)"""
+    v = strip_refs(v)
+    fresh = lambda c: c[0] == "call" and "indexmap::IndexMap" in c[1] and c[1].rsplit("::", 1)[-1] in ("new", "with_capacity", "default")
+    if fresh(v) or (v[0] == "call" and v[1].endswith("Default>::default")):
+        return "ok", "IndexMap::new()"
+    names, _ = facts.known()
+    if v[0] == "param":
+        return ("skip", "") if b.name not in names else ("?", "")
+    if v[0] in ("var", "local"):
+        l = v[1]
+        defs = b.defs().get(l, [])
+        if not defs:
+            return "?", ""
+        for (bi, si, kind, payload) in defs:
+            dt = b.term_of_rvalue(payload["rv"]) if kind == "assign" else b.term_of_call(payload, bi)
+            if not fresh(strip_refs(dt)):
+                return "?", ""
+        # a fresh map filled locally: every operation on it must keep insertion order
+        for bb, t in b.calls():
+            nm = callee_names(t)[1] or callee_names(t)[0] or ""
+            for a in t["args"]:
+                pl = a.get("m") or a.get("c")
+                term = b.term_of_operand(a)
+                r = strip_refs(term)
+                while r[0] in ("deref", "ref"):
+                    r = strip_refs(r[1])
+                if r[0] in ("var", "local") and r[1] == l or (pl and not pl["p"] and pl["l"] == l):
+                    sh = nm.rsplit("::", 1)[-1]
+                    if "indexmap::" in nm and sh in ORDER_BREAKING:
+                        return "bad", "filled locally, then %s" % sh
+                    if not (("indexmap::" in nm and sh in ORDER_PRESERVING) or sh in ("drop", "drop_in_place")):
+                        return "?", ""
+        return "ok", "a map created empty and filled by order-preserving inserts"
+    return "?", ""
 
 
 def run(facts, rep, ctx):
@@ -131,10 +168,15 @@ def run(facts, rep, ctx):
         where = "%s:%s" % (b.file, s["line"])
         if how == "construct":
             v = val
-            if v[0] == "call" and v[1].endswith("::new") and "indexmap::IndexMap" in v[1]:
-                rep.ok(R2, {"fn": b.name, "op": "construct with IndexMap::new()"})
+            verdict, why = built_map(facts, b, v)
+            if verdict == "ok":
+                rep.ok(R2, {"fn": b.name, "op": "construct with " + why})
+            elif verdict == "skip":
+                rep.count("constructions_in_new_helpers_seen_through_their_callers")
+            elif verdict == "bad":
+                rep.violation(R2, b.name, "construct", "TextArchive built with entries = %s (%s)" % (fmt(val), why), where)
             else:
-                rep.violation(R2, b.name, "construct", "TextArchive built with entries = %s" % fmt(val), where)
+                rep.inconc(R2, "%s builds a TextArchive with entries = %s, whose order is not decided" % (b.name, fmt(val)[:80]))
         elif how == "store":
             rep.violation(R2, b.name, "replace", "entries is replaced wholesale by %s" % fmt(val), where)
     # positive control: the rule must be able to see an order-breaking op at all
